@@ -117,6 +117,8 @@ func runLease(s LeaseScenario) (info LeaseInfo, v *vstat.Violation, exact bool) 
 		return runUnlockFail(s)
 	case "multi":
 		return runMulti(s)
+	case "sharedhandoff":
+		return runSharedHandoff(s)
 	}
 	panic("bad scenario " + s.Kind)
 }
@@ -835,5 +837,78 @@ func runMulti(s LeaseScenario) (info LeaseInfo, v *vstat.Violation, exact bool) 
 			}
 		}
 	}
+	return info, nil, false
+}
+
+// sharedhandoff: two goroutines share one Locker. The first holds, the second waits in Lock(); the first unlocks and the
+// reply of its Delete is delayed (the storage has applied it) for a tenth of a lease. Whatever the two do to the Locker's
+// shared state in that window, the second goroutine ends up holding the lock and keeps it: record present, unexpired,
+// contender excluded for 2.5 leases; then it unlocks and the contender acquires.
+func runSharedHandoff(s LeaseScenario) (info LeaseInfo, v *vstat.Violation, exact bool) {
+	L := time.Duration(s.LeaseMs) * time.Millisecond
+	inner := inmem.New()
+	fa, fb := gated.NewFaulty(inner), gated.NewFaulty(inner)
+	pa, pb := newProvider(fa, L), newProvider(fb, L)
+	defer pa.Shutdown()
+	defer pb.Shutdown()
+	a, b := pa.NewLocker("lease"), pb.NewLocker("lease")
+	ctx := context.Background()
+	t0 := time.Now()
+	a.Lock()
+	got := make(chan time.Time, 1)
+	go func() {
+		a.Lock() // same Locker object: waits for the local token
+		got <- time.Now()
+	}()
+	time.Sleep(L * time.Duration(s.Wait10) / 10)
+	h := fa.HoldNextDelete(!s.After) // After=false: the reply is delayed; After=true: the request is delayed
+	unlocked := make(chan struct{})
+	go func() { a.Unlock(); close(unlocked) }()
+	select {
+	case <-h.Held:
+		info.HeldInFlight = true
+	case <-time.After(5 * time.Second):
+		return info, vstat.V("lease:unlock-stuck", "lease %v: Unlock made no Delete call within 5 s", L), false
+	}
+	time.Sleep(L / 10)
+	close(h.Resume)
+	select {
+	case <-unlocked:
+	case <-time.After(5 * time.Second):
+		return info, vstat.V("lease:unlock-stuck", "lease %v: Unlock did not return within 5 s of its Delete being answered", L), false
+	}
+	var t1 time.Time
+	select {
+	case t1 = <-got:
+	case <-time.After(L + 5*time.Second):
+		return info, vstat.V("lease:never-released", "lease %v: the goroutine waiting in Lock() on the same Locker did not get the lock within %v of the Unlock", L, L+5*time.Second), false
+	}
+	defer func() {
+		if v != nil {
+			a.Unlock()
+		}
+	}()
+	for time.Since(t1) < 5*L/2 {
+		time.Sleep(L / 5)
+		info.Samples++
+		now := time.Now()
+		if b.TryLock(ctx) {
+			b.Unlock()
+			return info, vstat.V("lease:contender-acquired-while-held", "lease %v: two goroutines share a Locker; %.1f leases after the second one took over from the first (whose Delete was answered late) a contender acquired the held lock; storage calls:%s",
+				L, float64(now.Sub(t1))/float64(L), describeEvents(fa.Events(), t0)), false
+		}
+		if !s.OnlyExcl {
+			r, err := inner.Get(ctx, leaseKey)
+			if err != nil || r.ExpiresAt == nil || !r.ExpiresAt.After(now) {
+				return info, vstat.V("lease:record-expired-while-held", "lease %v: two goroutines share a Locker; %.1f leases after the second one took over from the first (whose Delete was answered late) its record is missing or expired (err=%v); storage calls:%s",
+					L, float64(now.Sub(t1))/float64(L), err, describeEvents(fa.Events(), t0)), false
+			}
+		}
+	}
+	a.Unlock()
+	if !b.TryLock(ctx) {
+		return info, vstat.V("lease:not-released", "lease %v: after the second Unlock a contender's TryLock returns false", L), true
+	}
+	b.Unlock()
 	return info, nil, false
 }
